@@ -350,6 +350,14 @@ def rules(rep, m):
     r7.discharged += max(0, no - nf)
 
 
+    # R-C04-8 ------------------------------------------------------------
+    r8 = rep.rule("R-C04-8", "withdrawing wake-ups that are still in flight looks at every pending event: the scan in "
+                  "cmb_event_pattern_cancel (used by every unwinding path) visits exactly the slots 1 .. heap_count (shared "
+                  "with R-C02-9) - an event in a slot that is never looked at would resume the process out of a later wait", floor=1)
+    from . import siftrules
+    siftrules.check_scans(rep, r8, m, only={"cmb_event_pattern_cancel"})
+
+
 def run(tier="quick"):
     models = common.load_models(tier)
     rep = Report(PID, tier, models[0])
